@@ -87,13 +87,17 @@ class World:
         self.ids = C.ids_for(side, 1)
         R, rp = self.inst.ref, self.inst.rp
         self.w = R.pw_scalar(self.pw)
-        menu = dict(C.inbound_menu(self.inst, side, self.w, x))
+        xo, own = C.session_facts(self.inst, side, self.pw, self.ids, x)
+        self.xo = xo
+        menu = dict(C.inbound_menu(self.inst, side, self.w, xo, own=own))
         self.msgs = {"fin_valid": menu["valid"], "fin_own_side": menu["own-side"], "fin_unknown_side": menu["unknown-side"],
                      "fin_reflected": menu["reflected"], "fin_undecodable": menu["undecodable"],
                      "fin_identity": C.PEER[side].encode() + R.enc(R.identity), "fin_empty": b""}
         self.refclass = {}
         for ev, d in self.msgs.items():
-            r = RS.finish(rp, side, self.pw, self.w, self.ids, x, d)
+            r = RS.finish(rp, side, self.pw, self.w, self.ids, xo, d)
+            if own is not None and d[1:] == own[1:] and RS.side_outcome(side, d) == "accept":
+                r = ("refuse", "reflection")
             self.refclass[ev] = "FinValid" if r[0] == "key" else "FinBad"
         self.other = {"A": "B", "B": "S", "S": "A"}[side]
         self.fam = self.inst.kind if self.inst.small else self.inst.name
